@@ -4,6 +4,7 @@ import (
 	"fmt"
 	"go/constant"
 	"go/types"
+	"sort"
 	"strings"
 )
 
@@ -674,6 +675,9 @@ func (te *TEnv) specCall(sf *SpecFunc, x ECall) TV {
 			args[i].T = gt
 		}
 	}
+	if sf.Body != nil && sf.Opaque {
+		return te.opaqueCall(sf, args)
+	}
 	if sf.Body != nil {
 		// macro expansion in the current heap
 		n := &TEnv{v: v, st: te.st, old: te.old, vars: map[string]TV{}, bound: map[string]TV{}, pkg: sf.Pkg, quant: te.quant, nowOld: te.nowOld, loopEntry: te.loopEntry}
@@ -763,4 +767,98 @@ func (v *FnVerifier) truncOf(x Term) Term {
 	v.ctx.Assert(T(SBool, "(and (=> (>= %s 0.0) (and (<= (to_real %s) %s) (< %s (to_real (+ %s 1))))) (=> (< %s 0.0) (and (< (to_real (- %s 1)) %s) (<= %s (to_real %s)))))",
 		x.S, r.S, x.S, x.S, r.S, x.S, r.S, x.S, x.S, r.S))
 	return r
+}
+
+// opaqueCall: p(args, versions of the heap arrays the body reads), with the definition
+// available as a quantified axiom triggered on applications of p (so that big quantified
+// bodies are atoms wherever they are only transported, not opened).
+func (te *TEnv) opaqueCall(sf *SpecFunc, args []TV) TV {
+	v := te.v
+	type dep struct {
+		name string
+		sort Sort
+	}
+	// 1. which arrays does the body read?  (translate once with recording on)
+	if v.opqDeps == nil {
+		v.opqDeps = map[string][]string{}
+		v.opqDone = map[string]bool{}
+	}
+	mkEnv := func() (*TEnv, []string, []Term) {
+		n := &TEnv{v: v, st: te.st, vars: map[string]TV{}, bound: map[string]TV{}, pkg: sf.Pkg, quant: 1, nowOld: te.nowOld}
+		var decls []string
+		var syms []Term
+		for _, p := range sf.Params {
+			gt, s := v.eng.resolveType(sf.Pkg, p.Type)
+			v.eng.qn++
+			sym := Term{Sym(fmt.Sprintf("%s!o%d", p.Name, v.eng.qn)), s}
+			decls = append(decls, fmt.Sprintf("(%s %s)", sym.S, s))
+			syms = append(syms, sym)
+			n.vars[p.Name] = TV{sym, gt}
+		}
+		return n, decls, syms
+	}
+	deps, ok := v.opqDeps[sf.Name]
+	if !ok {
+		n, _, _ := mkEnv()
+		saved := v.rec
+		v.rec = map[string]bool{}
+		n.bool(sf.Body)
+		for k := range v.rec {
+			deps = append(deps, k)
+		}
+		sort.Strings(deps)
+		v.rec = saved
+		v.opqDeps[sf.Name] = deps
+	}
+	if v.rec != nil { // we are inside another opaque body's discovery: propagate
+		for _, d := range deps {
+			v.rec[d] = true
+		}
+	}
+	// 2. current versions
+	var vers []Term
+	var sorts []Sort
+	for _, p := range sf.Params {
+		_, s := v.eng.resolveType(sf.Pkg, p.Type)
+		sorts = append(sorts, s)
+	}
+	for _, d := range deps {
+		s := v.arrSort[d]
+		var t Term
+		if strings.HasPrefix(d, "G:") {
+			t, _ = v.ghost(te.st, strings.TrimPrefix(d, "G:"))
+		} else {
+			t = v.arr(te.st, d, s)
+		}
+		vers = append(vers, t)
+		sorts = append(sorts, s)
+	}
+	name := "opq:" + sf.Name
+	v.ctx.Declare(name, sorts, SBool)
+	var argTerms []Term
+	for i, a := range args {
+		t, isT := a.V.(Term)
+		if !isT {
+			sfail("opaque spec %s: argument %d is not a scalar", sf.Name, i)
+		}
+		argTerms = append(argTerms, v.coerce(t, sorts[i]))
+	}
+	app := App(SBool, Sym(name), append(argTerms, vers...)...)
+	// 3. the definition, once per tuple of array versions
+	key := sf.Name
+	for _, t := range vers {
+		key += "|" + t.S
+	}
+	if !v.opqDone[key] {
+		v.opqDone[key] = true
+		n, decls, syms := mkEnv()
+		body := n.bool(sf.Body)
+		lhs := App(SBool, Sym(name), append(syms, vers...)...)
+		if len(decls) > 0 {
+			v.ctx.AssertRaw(fmt.Sprintf("(assert (forall (%s) (! (= %s %s) :pattern (%s))))", strings.Join(decls, " "), lhs.S, body.S, lhs.S))
+		} else {
+			v.ctx.Assert(Eq(lhs, body))
+		}
+	}
+	return TV{app, nil}
 }
